@@ -360,15 +360,15 @@ class Life:
                     self.client_abort = True
             elif tag in ("rx", "do", "t"):
                 self.trigger = "%s-%s" % (tag, e[1])
-        # exceptions that reached the networking framework
+        # exceptions that reached the networking framework: NOT part of the statement (on asyncio a failing
+        # onJoin surfaces as "Future exception was never retrieved" at GC time) - evidence only
         esc = list(self.rp.world.escaped)
         if esc:
             del self.rp.world.escaped[:]
             for name, x in esc:
                 exc = getattr(x, "exc", x)
-                self.v("escaped/%s/%s/on-%s" % (getattr(x, "where", name).split(":")[0], type(exc).__name__, self.trigger),
-                       "an exception reached the networking framework: %r" % (x,),
-                       nonok_modes=[k for k, m in self.modes.items() if m != "ok"])
+                R.count("escaped_to_framework_observed")
+                R.seen("escaped_kinds", "%s/%s" % (getattr(x, "where", name).split(":")[0], type(exc).__name__))
 
     # ------------------------------------------------------------------ router side
     def may_send(self, name):
@@ -423,6 +423,45 @@ class Life:
         if any(e[0] == "tx" and e[1] == "GOODBYE" for e in self.H[n:]):
             self.phase = "closing"
 
+    def do_welcome_goodbye(self):
+        """WELCOME and a router-initiated GOODBYE arriving in ONE read (TCP coalescing; a router that shuts
+        down / kills the session right after admitting it).  A schedule of a legal conversation: the session
+        is joined by the WELCOME and ended by the GOODBYE, to which exactly one GOODBYE must go out (the
+        answer - or this side's own GOODBYE when onJoin called leave() first, then no answer)."""
+        if self.phase not in ("connected", "challenged") or not self.may_send("WELCOME"):
+            return
+        pre_tc = self.tclosing()
+        if pre_tc:
+            self.ambiguous = True
+            self.R.count("router_msg_into_closing_transport")
+        g0 = self.goodbyes
+        w = [2, self.sid, {"roles": WELCOME_ROLES, "realm": "realm1", "authid": "anon", "authrole": "anonymous"}]
+        g = [6, {}, "wamp.close.system_shutdown"]
+        self.H.append(("rx", "WELCOME+GOODBYE"))
+        self.rp.send_raw(self.rp.encode(w) + self.rp.encode(g))
+        self.sync()
+        self.R.count("coalesced_welcome_goodbye")
+        if self.client_abort or self.modes["onWelcome"] != "ok":
+            # the client refused the WELCOME itself: the GOODBYE then hits a session that is not established
+            if not self.client_abort or self.modes["onWelcome"] == "ok":
+                self.ambiguous = True
+            self.phase = "aborted"
+            self.end_reason = "client-abort"
+            return
+        if not pre_tc:
+            self.joined_model = True
+        self.R.count("welcome_delivered")
+        if not pre_tc and not self.ambiguous:
+            self.checked += 1
+            self.R.count("goodbye_answer_checked")
+            sent = self.goodbyes - g0
+            if sent == 0:
+                self.v("goodbye-unanswered/coalesced-with-welcome",
+                       "router GOODBYE arriving in the same read as WELCOME was not answered with GOODBYE "
+                       "(transport close requested: %r)" % (self.rp.ep.close_requested,))
+        self.phase = "left"
+        self.end_reason = "goodbye"
+
     def do_abort(self):
         if self.phase not in ("connected", "challenged") or not self.may_send("ABORT"):
             return
@@ -438,14 +477,18 @@ class Life:
                 self.v("leave-missing/router-abort", "router ABORT before the session was established did not fire onLeave")
             self.check_pending_after_leave("router-abort")
 
-    def do_rgoodbye(self):
+    def do_rgoodbye(self, cross=0):
+        """Router GOODBYE.  ``cross``: the router initiates closing on its own (system_shutdown) although the
+        client's GOODBYE is already under way - crossing GOODBYEs; this side initiated, so it must not answer."""
         if self.phase not in ("joined", "closing") or not self.may_send("GOODBYE"):
             return
         initiated = self.phase == "closing"
         pre_tc = self.tclosing()
         pre_amb = self.ambiguous
         g0 = self.goodbyes
-        reason = "wamp.close.goodbye_and_out" if initiated else "wamp.close.system_shutdown"
+        reason = "wamp.close.goodbye_and_out" if (initiated and not cross) else "wamp.close.system_shutdown"
+        if initiated and cross:
+            self.R.count("goodbye_crossing")
         self.send([6, {}, reason], "GOODBYE")
         answered = self.goodbyes - g0
         if not pre_tc and not pre_amb and self.joined_model:
@@ -755,7 +798,8 @@ class Life:
                        "onLeave fired although the session never joined and the router did not abort (%s)" % self.end_reason)
         else:
             R.count("leave_grey")
-        if fired and self.modes["onLeave"] in ("ok", "nosuper", "leave_again"):
+        onleave_failed = any(e[0] == "usererror" and "onLeave" in e[2] for e in self.H)
+        if fired and self.modes["onLeave"] in ("ok", "nosuper", "leave_again") and not onleave_failed:
             R.count("leave_observer_checked")
             if self.count_cb("obs", "leave") == 0:
                 self.v("leave-observer-missing/%s" % self.end_reason, "onLeave returned normally but 'leave' observers did not fire")
@@ -799,7 +843,15 @@ class Life:
                 self.v("api-after-end/%s/succeeds" % kind, "%s() after the end completed successfully" % kind)
             else:
                 R.seen("api_after_end_outcomes", kind + "/failed-future")
-        if any(e[0] == "tx" for e in self.H[n:]):
+        for name in ("leave", "disconnect"):
+            self.H.append(("do", "post-end:" + name))
+            try:
+                getattr(self.session, name)()
+            except Exception as e:
+                self.H.append(("api-raise", name, type(e).__name__))
+            R.count("api_after_end_" + name)
+        self.sync()
+        if any(e[0] in ("tx", "txclose") for e in self.H[n:]):
             self.v("api-after-end/writes", "an API call after the end put a message on the wire")
 
     def end(self):
@@ -839,5 +891,5 @@ class Life:
         sig = [e[:2] if e[0] in ("cb", "obs", "tx", "rx", "t", "do") else e[:1] for e in self.H if e[0] != "step"]
         R.seen("histories", h([self.kind, sig]))
         if self.checked:
-            R.seen("nontrivial", h([self.kind, self.ser, self.modes, self.case["steps"]]))
+            R.seen("nontrivial", h(["tx" if txaio.using_twisted else "aio", self.kind, self.ser, self.modes, self.case["steps"]]))
         return self
